@@ -48,17 +48,17 @@ theorem getHeader_spec (pre b post : Bytes) (hmem : (pre ++ b ++ post).length < 
 
 /-! ### every payload object is converted to the model's packet -/
 
-theorem mem_busPl (p : Bytes) : ∀ n off x, x ∈ busPl p n off → ∃ o, x = some (busObj p o) ∧ o + 12 ≤ p.length := by
+theorem mem_busPl (p : Bytes) (v : Nat) : ∀ n off x, x ∈ busPl p v n off → ∃ o, x = some (busObj p o) ∧ o + 12 ≤ p.length := by
   intro n
   induction n with
   | zero => intro off x h; simp [busPl] at h
   | succ n ih =>
     intro off x h
     unfold busPl at h
-    by_cases ho : off + 12 ≤ p.length
+    by_cases ho : off + (12 + v) ≤ p.length
     · rw [if_pos ho, List.mem_cons] at h
       rcases h with h | h
-      · exact ⟨off, h, ho⟩
+      · exact ⟨off, h, by omega⟩
       · exact ih _ _ h
     · rw [if_neg ho] at h; simp at h
 
@@ -73,9 +73,11 @@ theorem convert_all (b : Bytes) (h28 : 28 ≤ b.length) (h64 : (b.drop 28).lengt
   rw [e5] at hx
   by_cases h1 : byteAt b 5 = 1
   · rw [if_pos h1] at hx
-    by_cases h18 : (b.drop 28).length < 18
+    unfold cmR at hx
+    by_cases h18 : (b.drop 28).length < 18 ∨ (b.drop 28).length - 12 < beAt (b.drop 28) 4 2
     · rw [if_pos h18] at hx; simp at hx
-    · rw [if_neg h18, List.mem_singleton] at hx
+    · rw [if_neg h18] at hx
+      simp only [List.mem_singleton] at hx
       subst hx
       rw [convertPacket_cm _ _ _ hH (by rw [e5]; exact h1) (by omega), tpkt_take, e12]
       simp only [convF, h1, if_true]
@@ -114,7 +116,7 @@ theorem convert_all (b : Bytes) (h28 : 28 ≤ b.length) (h64 : (b.drop 28).lengt
         by_cases h12 : (b.drop 28).length < 12
         · rw [if_pos h12] at hx; simp at hx
         · rw [if_neg h12] at hx
-          obtain ⟨o, rfl, ho⟩ := mem_busPl _ _ _ _ hx
+          obtain ⟨o, rfl, ho⟩ := mem_busPl _ _ _ _ _ hx
           have hl : 24 ≤ (busObj (b.drop 28) o).f_payloadData.length := by
             have := slice_length (b.drop 28) o 12 ho
             simp only [busObj, List.length_append, List.length_take, this, zeros_length]; omega
@@ -152,8 +154,8 @@ theorem tecmpDecode_shape (b : Bytes) (hacc : ¬ hdrRej b)
   unfold tecmpDecode handleR
   simp only [h28, h0, hfit, hv, if_false, e5]
   by_cases h1 : byteAt b 5 = 1
-  · simp only [h1, if_true, tecmpCm_shape]
-    by_cases h18 : (b.drop 28).length < 18
+  · simp only [h1, if_true, tecmpCm_shape, cmR]
+    by_cases h18 : (b.drop 28).length < 18 ∨ (b.drop 28).length - 12 < beAt (b.drop 28) 4 2
     · simp only [h18, if_true, List.map_nil]
     · simp only [h18, if_false, List.map_cons, List.map_nil, tRepr_tecmpPacket, convF, h1, if_true]
   · simp only [h1, if_false]
